@@ -917,12 +917,17 @@ def m_str_replace(ex, st, fr, callee, a, depth):
             raise Inconclusive('str::replace with a pattern of %d code points' % len(pat.items))
         pat = pat.items[0]
     if isinstance(pat, ListV):
-        raise Inconclusive('str::replace with a char-slice pattern')
+        # [char; N] / &[char] pattern: any of the characters
+        hit = lambda x: z3.Or(*[x == p for p in pat.items]) if pat.items else z3.BoolVal(False)
+    elif isinstance(pat, (ClosV, FnItem)):
+        raise Inconclusive('str::replace with a closure pattern')
+    else:
+        hit = lambda x: x == pat
     cur = [(st, [])]
     for x in s.items:
         nxt = []
         for s1, acc in cur:
-            for s2, truth in ex.branch(s1, x == pat):
+            for s2, truth in ex.branch(s1, hit(x)):
                 nxt.append((s2, acc + (list(to.items) if truth else [x])))
         cur = nxt
     return [(s1, SymStr(acc)) for s1, acc in cur]
